@@ -40,6 +40,18 @@ Theorem c20_same_as_without_mirrors : forall g ops,
 Proof. exact same_as_without_mirrors. Qed.
 Print Assumptions c20_same_as_without_mirrors.
 
+(** The client path does not depend on the mirror tasks: take ANY schedule and erase every step of every
+    mirror task and mirror (connecting, failing to connect, delivering, hanging, ...): connections, Server
+    states and the log of what the real servers got, with the values returned to the callers, are the same.
+    Modelling assumption, stated: a mirror-task step is a step of ITS OWN task and takes nothing from the
+    client path but the shared runtime; that the runtime really has a free worker while a mirror task waits
+    (no blocking call inside an async task) is outside the model and is what the round-trip latency monitor of
+    props/c20.py observes on the real code. *)
+Theorem c20_client_path_independent : forall g ops w1 w2, pview w1 = pview w2 ->
+  pview (runw g w1 ops) = pview (runw g w2 (filter client_op ops)).
+Proof. exact client_path_independent. Qed.
+Print Assumptions c20_client_path_independent.
+
 (** send has no mirror-dependent waiting state: it is a total function whose primary result
     is fixed by (server state, buffer, outcome of the real write) alone, and each mirror
     channel is decided by its own fullness/closedness (the early return is redundant). *)
